@@ -358,7 +358,9 @@ def main(argv=None):
                 machinery.append((j, 'counterexample did not replay natively: ' + (j.replay or {}).get('native', 'no playback')))
         elif j.state in ('undecided', 'vacuous'):
             log(f"UNDECIDED harness={h.name} mode={h.mode} reason={j.state}: {j.detail[:300]}")
-            if h.core or j.state == 'vacuous':
+            # only the calibrated quick-tier set can fail the run: a thorough-only harness that does not finish (or whose
+            # witness is not met) is reported and left out of `discharged`, never counted as held
+            if h.tier == 'quick' and (h.core or j.state == 'vacuous'):
                 machinery.append((j, j.detail))
 
     seen = {}
@@ -457,7 +459,8 @@ def write_evidence(prop, tier, seed, jobs, violations, findings, wall):
                     'SAT solver over all symbolic inputs of the decided harnesses; distinct_nontrivial = harness x instantiation x build-mode '
                     'triples that held with every reachability cover SATISFIED (a harness with an unsatisfied cover counts as vacuous, not held)',
             'samples': samples,
-            'obligations': len(jobs), 'discharged': len(held),
+            'obligations': len([j for j in jobs if j.h.kind != 'kf']), 'discharged': len([j for j in held if j.h.kind != 'kf']),
+            'known_finding_twins': [{'harness': j.h.name, 'result': j.state, 'note': 'expected-to-fail harness isolating the input region of an open known finding'} for j in jobs if j.h.kind == 'kf'],
             'undecided': [{'harness': j.h.name, 'mode': j.h.mode, 'reason': j.detail[:200]} for j in jobs if j.state in ('undecided', 'vacuous')],
             'reachability_covers_satisfied': n_covers,
             'solver_s': round(sum(j.parsed['solver_s'] for j in jobs if j.parsed), 2),
